@@ -318,6 +318,9 @@ def run(chk):
         # oracle 1: history independence
         if fresh is not None and "_raw" not in fresh:
             same = (pr.get("exc") == fresh.get("exc")) and (pr.get("shas", [None])[:1] == fresh.get("shas", [None])[:1])
+            if same and pr.get("stderrRun") != fresh.get("stderrRun"):
+                found.append(("the messages a run prints differ from those in a fresh process",
+                              {"history": hist, "after_history": pr.get("stderrRun"), "fresh": fresh.get("stderrRun")}))
             if not same:
                 found.append(("the probe's result after a history differs from the result in a fresh process",
                               {"history": hist, "after_history": pr.get("shas"), "fresh": fresh.get("shas"),
